@@ -16,3 +16,25 @@ fn model_sign_verify() {
     assert!(roundtrip::<Bls12381Sha256>(&[7u8; 32], Some(b"hd"), &[vec![1, 2], vec![3]]));
     assert!(roundtrip::<Bls12381Shake256>(&[9u8; 32], None, &[]));
 }
+
+#[test]
+fn reference_matches_model_sign() {
+    use crate::reference as rf;
+    use zkryptium::bbsplus::generators::Generators;
+    use zkryptium::utils::message::bbsplus_message::BBSplusMessage;
+    type CS = Bls12381Sha256;
+    let kp = KeyPair::<BBSplus<CS>>::generate(&[7u8; 32], None, None).unwrap();
+    let (sk, pk) = (kp.private_key().clone(), kp.public_key().clone());
+    let msgs = vec![vec![5u8], vec![9u8, 1]];
+    let hdr = b"h";
+    let sig = Signature::<BBSplus<CS>>::sign(Some(&msgs), &sk, &pk, Some(hdr)).unwrap();
+    let api = rf::SHA.api_id(false);
+    assert_eq!(&api[..], CS::API_ID);
+    let g = Generators::create::<CS>(3, Some(CS::API_ID));
+    let ms: Vec<_> = BBSplusMessage::messages_to_scalar::<CS>(&msgs, CS::API_ID).unwrap().iter().map(|m| m.value).collect();
+    let d = rf::domain::<<CS as BbsCiphersuite>::Expander>(&pk.0, &g.values[0], &g.values[1..], &api, hdr);
+    let e = rf::sign_e::<<CS as BbsCiphersuite>::Expander>(&sk.0, &ms, &d, &api);
+    let b = rf::b_value(&g.g1_base_point, &g.values[0], &g.values[1..], &d, &ms);
+    assert_eq!(sig.e(), e, "e");
+    assert_eq!(sig.a() * (sk.0 + e), b, "B");
+}
